@@ -47,6 +47,9 @@ enum Harm {
     WildcardReplay,
     /// The unsigned CNAME next to a DNAME redirected to another signed name.
     ForgeDnameCname,
+    /// Data and a root DNSKEY RRset signed by an attacker's key that shares
+    /// key tag and algorithm with the configured trust anchor.
+    RootKeySwap,
 }
 
 #[derive(Default)]
@@ -56,6 +59,8 @@ struct UpState {
     infra_harm_applied: u32,
     infra_queries: u32,
     world: usize,
+    /// Answer `. DNSKEY` with the attacker's key set.
+    root_key_swap: bool,
 }
 
 #[derive(Clone)]
@@ -100,6 +105,10 @@ impl SendRequest<RequestMessage<Vec<u8>>> for FinalUp {
             if sim::chance("final_up.lying_ad", 1, 2) {
                 bytes[3] |= 0x20;
             }
+            // Resolvers echo the CD bit of the query.
+            if msg.header().cd() && sim::chance("final_up.echo_cd", 3, 4) {
+                bytes[3] |= 0x10;
+            }
             Ok(Message::from_octets(Bytes::from(bytes)).expect("message"))
         };
         Box::new(UpReq {
@@ -123,7 +132,7 @@ fn harm(r: &mut Resp, h: Harm, world: &World) -> bool {
     use domain::rdata::ZoneRecordData as D;
     let is_sig = |rec: &super::dnssec_world::SRec| rec.rtype() == Rtype::RRSIG;
     match h {
-        Harm::None | Harm::TransportError | Harm::Nxdomain | Harm::ForgedNxdomainBelowCut | Harm::WildcardReplay | Harm::ForgeDnameCname => false,
+        Harm::None | Harm::TransportError | Harm::Nxdomain | Harm::ForgedNxdomainBelowCut | Harm::WildcardReplay | Harm::ForgeDnameCname | Harm::RootKeySwap => false,
         Harm::DropRrsig => {
             // Drop every RRSIG of one signed RRset.
             let sec_is_answer = !r.answer.is_empty() && r.answer.iter().any(is_sig);
@@ -271,6 +280,14 @@ impl SendRequest<RequestMessage<Vec<u8>>> for Upstream {
             }
             let mut r = w.resolve(&qname, qtype);
             let mut applied = false;
+            if qname == "." && qtype == Rtype::DNSKEY && st.lock().unwrap().root_key_swap {
+                if let Some(evil) = w.evil_root_dnskey() {
+                    r = evil;
+                    applied = true;
+                    st.lock().unwrap().infra_harm_applied += 1;
+                    sim::stat("fault.infra_response_tampered");
+                }
+            }
             if let Some(h) = h {
                 match h {
                     Harm::TransportError => {
@@ -294,7 +311,7 @@ impl SendRequest<RequestMessage<Vec<u8>>> for Upstream {
                 }
             }
             legit_transform(&mut r);
-            ev!("upstream {} {} -> {} answer / {} authority records{}", qname, qtype, r.answer.len(), r.authority.len(), if applied { format!(" TAMPERED {:?}", h.unwrap()) } else { String::new() });
+            ev!("upstream {} {} -> {} answer / {} authority records{}", qname, qtype, r.answer.len(), r.authority.len(), if applied { format!(" TAMPERED {:?}", h.unwrap_or(Harm::RootKeySwap)) } else { String::new() });
             let bytes = to_message(&msg, &r);
             Ok(Message::from_octets(Bytes::from(bytes)).expect("message"))
         };
@@ -355,7 +372,7 @@ impl Scenario for ValidatorScn {
     }
 }
 
-const QUERIES: [(&str, Rtype, &str); 26] = [
+const QUERIES: [(&str, Rtype, &str); 27] = [
     ("www.zone.tld.", Rtype::A, "positive"),
     ("www.zone.tld.", Rtype::TXT, "positive"),
     ("zone.tld.", Rtype::SOA, "positive"),
@@ -382,6 +399,7 @@ const QUERIES: [(&str, Rtype, &str); 26] = [
     ("host.unsigned.tld.", Rtype::A, "insecure"),
     ("nope.unsigned.tld.", Rtype::A, "insecure-nxdomain"),
     ("plain.tld.", Rtype::TXT, "positive-tld"),
+    ("other.", Rtype::TXT, "positive-root"),
 ];
 
 async fn run(_tier: Tier) {
@@ -466,6 +484,7 @@ async fn run(_tier: Tier) {
                     Harm::ForgedNxdomainBelowCut,
                     Harm::WildcardReplay,
                     Harm::ForgeDnameCname,
+                    Harm::RootKeySwap,
                 ],
             )
         } else {
@@ -477,6 +496,16 @@ async fn run(_tier: Tier) {
                     let insecure = r.insecure;
                     r = f;
                     r.insecure = insecure;
+                    true
+                }
+                None => false,
+            }
+        } else if final_harm == Harm::RootKeySwap {
+            match w.forged_root_answer(qname, qtype) {
+                Some(f) => {
+                    r = f;
+                    up.st.lock().unwrap().root_key_swap = true;
+                    sim::stat("fault.root_key_with_colliding_tag");
                     true
                 }
                 None => false,
@@ -549,7 +578,7 @@ async fn run(_tier: Tier) {
         // concurrently on the same context (shared node and signature
         // caches, concurrent DS/DNSKEY fetches). Only when no infrastructure
         // response is to be harmed, so that every result stays attributable.
-        let n_comp = if infra_harm.is_none() && sim::chance("companions", 1, 3) { 1 + sim::draw("companions.n", 3) as usize } else { 0 };
+        let n_comp = if infra_harm.is_none() && final_harm != Harm::RootKeySwap && sim::chance("companions", 1, 3) { 1 + sim::draw("companions.n", 3) as usize } else { 0 };
         let mut comp_jobs: Vec<(&str, Rtype, &str, bool, Message<Vec<u8>>)> = Vec::new();
         for _ in 0..n_comp {
             let (cq, ct, cc) = QUERIES[sim::draw("companions.query", QUERIES.len() as u64) as usize];
@@ -602,11 +631,21 @@ async fn run(_tier: Tier) {
             (g.infra_harm_applied, g.infra_queries)
         };
         up.st.lock().unwrap().infra_harm = None;
+        up.st.lock().unwrap().root_key_swap = false;
         let state = match &res {
             Ok((s, _)) => format!("{:?}", s),
             Err(e) => format!("Err({:?})", e).chars().take(60).collect(),
         };
-        ev!("  -> {} (infra queries {}, tampered {})", state, infra_queries, infra_applied);
+        ev!(
+            "  -> {} (infra queries {}, tampered {}){}",
+            state,
+            infra_queries,
+            infra_applied,
+            match &res {
+                Ok((_, Some(ede))) => format!(" ede: {}", format!("{:?}", ede).chars().take(120).collect::<String>()),
+                _ => String::new(),
+            }
+        );
         if infra_queries == 0 {
             sim::stat("probe.validation_from_warm_cache");
         }
